@@ -336,6 +336,32 @@ package tree
 //@   loop 1
 //@     invariant [found_so_far] (e2 == nil && (forall k int :: {n.br[k]} 0 <= k && k <= rangeindex ==> n.br[k].right != n)) || (e2 != nil && e2.right == n && (exists k int :: 0 <= k && k <= rangeindex && n.br[k] == e2) && (forall k int :: {n.br[k]} 0 <= k && k <= rangeindex && n.br[k].right == n ==> n.br[k] == e2))
 
+// Parent: the upper end of the unique branch that points into n
+//@ func (*tree.Node).Parent
+//@   requires n != nil && (forall k int :: {n.br[k]} 0 <= k && k < len(n.br) ==> n.br[k] != nil && n.br[k].left != nil)
+//@   allocates iface
+//@   assigns nothing
+//@   ensures [upper_end_of_the_incoming_branch] result1 == nil ==> (exists k int :: 0 <= k && k < len(n.br) && n.br[k].right == n && n.br[k].left == result0) && (forall k int :: {n.br[k]} 0 <= k && k < len(n.br) && n.br[k].right == n ==> n.br[k].left == result0)
+//@   ensures [error_without_a_value] result1 != nil ==> result0 == nil
+//@   loop 1
+//@     invariant [found_so_far] (n2 == nil && (forall k int :: {n.br[k]} 0 <= k && k <= rangeindex ==> n.br[k].right != n)) || (n2 != nil && (exists k int :: 0 <= k && k <= rangeindex && n.br[k].right == n && n.br[k].left == n2) && (forall k int :: {n.br[k]} 0 <= k && k <= rangeindex && n.br[k].right == n ==> n.br[k].left == n2))
+
+// InsertIdenticalTip (property C15): the new tip is named as asked and registered in the name index; when the tip's
+// branch has a length other than 0 a new inner node takes the tip's place under the parent (the tip's branch keeps its
+// length and now leads to that node), with the new tip and the old tip below it on two branches of length 0; the
+// old tip keeps its number of neighbours
+//@ func (*tree.Tree).InsertIdenticalTip
+//@   flag noframe
+//@   flag lightcalls
+//@   requires t != nil && n != nil && allocated(n) && t.tipIndex != nil && INV1() && INV2() && OWN() && LIVEBR()
+//@   requires [a_branch_joins_two_different_nodes] forall k int :: {n.br[k]} 0 <= k && k < len(n.br) ==> n.br[k].left != n.br[k].right
+//@   call (*tree.Edge).SetLength [every_branch_created_here_gets_length_zero] a1 == 0.0 && fresh(a0)
+//@   call (*tree.Tree).ConnectNodes [the_new_tip_is_always_the_lower_end] a2 == newtipnode && fresh(a1) == (parentedge.length != 0.0)
+//@   ensures [new_tip_named_and_registered] err == nil ==> newtipnode != nil && fresh(newtipnode) && newtipnode.name == newTipName && has(t.tipIndex, newTipName) && t.tipIndex[newTipName] == newtipnode && len(newtipnode.neigh) == 1
+//@   ensures [the_given_node_is_still_a_tip] err == nil ==> len(n.neigh) == 1 && len(n.br) == 1
+//@   ensures [cherry_under_a_new_inner_node_when_the_tip_branch_has_a_length] err == nil && fresh(newtipnode.neigh[0]) ==> len(newtipnode.neigh[0].neigh) == 3 && newtipnode.neigh[0].neigh[0] == newtipnode && newtipnode.neigh[0].neigh[2] == n && n.neigh[0] == newtipnode.neigh[0] && n.br[0] == newtipnode.neigh[0].br[2] && n.br[0].length == 0.0 && n.br[0].left == newtipnode.neigh[0] && n.br[0].right == n && fresh(n.br[0])
+//@   ensures [the_old_tip_branch_keeps_its_length_and_now_leads_to_the_new_inner_node] err == nil && fresh(newtipnode.neigh[0]) ==> newtipnode.neigh[0].br[1] == old(n.br[0]) && old(n.br[0]).right == newtipnode.neigh[0] && old(n.br[0]).left == old(n.br[0].left) && old(n.br[0]).length == old(n.br[0].length) && old(n.br[0].length) != 0.0 && newtipnode.neigh[0].neigh[1] == old(n.br[0].left)
+
 // GraftTreeOnTip (properties C03, C15): the root of the grafted tree takes exactly the slot the tip occupied in its
 // parent's neighbour list, the tip's branch now leads to it, and it records the parent and that branch last
 //@ func (*tree.Tree).GraftTreeOnTip
